@@ -365,3 +365,25 @@ Proof. exact is_redirect_gen. Qed.
 Print Assumptions c15_code_redirect_method.
 Print Assumptions c15_code_is_redirect_status.
 Print Assumptions c15_code_is_redirect_is_model.
+
+(* ================================================================== as_new_flow itself (translated from the source) *)
+(** [Flow<Redirect>::as_new_flow] (src/client/flow.rs) is translated on every run by tools/rs2coq2.py (theories/Gen2.v,
+    [gen_as_new_flow]): the Location must be there and be text, the status is unwrapped, the target is resolved, the method table is
+    applied, the previous request is taken, the next flow is built, and the inherited headers the next request suppresses are pushed in
+    order -- with the url resolution, the "may this target keep the credentials" test and the two constructions as parameters.
+    proofs/Gen2_equiv_redirect.v proves that, instantiated with the model's readings of those parameters, it agrees with the model's
+    [as_new_flow] on every flow and policy: same error, same panic sites, not followed exactly when the model does not follow, and
+    otherwise the same suppression list, method and target.  Trusted: the translator; the url crate stays modelled. *)
+From Hoot Require Import GenLib Gen2.
+From Hoot.proofs Require Import Gen2_equiv_redirect.
+Theorem c15_code_as_new_flow : forall f policy,
+  let g := gen_as_new_flow [] (i_location f) (i_status f) (am_method (c_req (i_call f))) policy
+             (resolve_of (c_req (i_call f))) (keep_of (c_req (i_call f))) (take_of (c_req (i_call f))) (Ok tt) in
+  match as_new_flow f policy with
+  | Ok (_, Some nf) => g = Ok (am_unset (c_req (i_call nf)), Some (am_method (c_req (i_call nf)), am_eff_uri (c_req (i_call nf))))
+  | Ok (_, None)    => g = Ok ([], None)
+  | Err e           => g = Err e
+  | Panic _         => exists s, g = Panic s
+  end.
+Proof. exact gen_as_new_flow_ok. Qed.
+Print Assumptions c15_code_as_new_flow.
